@@ -13,6 +13,9 @@ enum Mode {
 
 fn one<X: Sx>(ctx: &Ctx, idx: u64, l: usize, m: usize, mode: Mode, exhaustive: bool) {
     let mut r = ctx.rng("c05", idx);
+    if l + m <= 300 {
+        history_warmup::<X>(ctx, &mut r, l + m);
+    }
     let (sk, pk) = keypair::<X>(&mut r);
     let msgs = gen_messages(&mut r, l, idx as usize);
     let cm = gen_messages(&mut r, m, idx as usize + 3);
@@ -59,6 +62,14 @@ fn one<X: Sx>(ctx: &Ctx, idx: u64, l: usize, m: usize, mode: Mode, exhaustive: b
             }
         }
         None => ctx.violation("C05:blind-signature-decode-failed", json!({"case":base})),
+    }
+    {
+        let vo = on_fresh_thread(|| {
+            BSig::<X>::from_bytes(&sb).ok().map(|b2| ctx.call("verify_blind_sign", &base, None, || b2.verify_blind_sign(&pk, hdr.as_opt(), m_opt, cm_opt, blind.as_ref())).outcome)
+        });
+        if !matches!(vo, Some(Outcome::Ok)) {
+            ctx.violation("C05:verify_blind_sign-on-fresh-thread-failed", json!({"case":base,"outcome":vo.map(|o| o.short())}));
+        }
     }
     // presentations
     let pairs: Vec<(Vec<usize>, Vec<usize>)> = if exhaustive {
